@@ -725,14 +725,38 @@ func c25(c *core.Check) {
 		g := f.Graph()
 		errAdds, irr1 := progLoadErrors.in(f)
 		okAdds, irr2 := progLoads.in(f)
-		progLoadErrors.undecideIrregular("C25-R4", f, irr1)
-		progLoads.undecideIrregular("C25-R4", f, irr2)
+		var modelled []*core.Func // deferred closures whose events are added per exit below
+		if _, u := progLoadErrors.deferred(f); u == "" {
+			if _, u2 := progLoads.deferred(f); u2 == "" {
+				modelled = deferLits(c, f)
+			}
+		}
+		progLoadErrors.undecideIrregular("C25-R4", f, irr1, modelled...)
+		progLoads.undecideIrregular("C25-R4", f, irr2, modelled...)
 		ce := g.Count(nil, c25Points(errAdds), nil)
 		co := g.Count(nil, c25Points(okAdds), nil)
+		dErr, und1 := progLoadErrors.deferred(f)
+		dOk, und2 := progLoads.deferred(f)
+		if und1+und2 != "" {
+			c.Undecided("C25-R4", compileAndRun+"|deferred accounting", pos(c, f.Decl), und1+" "+und2)
+		}
+		for _, d := range append(append([]c25DeferredEv{}, dErr...), dOk...) {
+			a := d.ev
+			c.Verdict(a.Key != nil && a.Key.Root == paramAt(f, 0) && paramAt(f, 0) != nil && len(a.Key.Fields) == 0 && a.DeltaOK && a.Delta == 1, "C25-R4", compileAndRun+"|key (deferred)", pos(c, a.N), "keyed by name, delta 1", "a deferred load counter is not keyed by the program name with delta 1")
+		}
 		for _, e := range normalExits(g) {
 			ne := c25AtExit(ce, e, c25Points(errAdds))
 			no := c25AtExit(co, e, c25Points(okAdds))
 			key := compileAndRun + "|exit=" + e.String()
+			if len(dErr)+len(dOk) > 0 {
+				a1, u1 := c25DeferredAt(f, dErr, e)
+				a2, u2 := c25DeferredAt(f, dOk, e)
+				if u1+u2 != "" {
+					c.Undecided("C25-R4", key, ppos(c, e.P, f), "deferred accounting: "+u1+" "+u2)
+					continue
+				}
+				ne, no = c25AddCnt(ne, a1), c25AddCnt(no, a2)
+			}
 			if e.Kind == "return" && !returnsNil(f.Info(), e.Ret) {
 				c.Verdict(ne.Min == 1 && ne.Max == 1 && no.Max == 0, "C25-R4", key, ppos(c, e.P, f), "one load error, no load",
 					fmt.Sprintf("a failing load (%s) is counted %s times in prog_load_errors_total and %s times in prog_loads_total; want exactly 1 and 0", exprStr(e.Ret.Results[len(e.Ret.Results)-1]), ne.String(), no.String()))
@@ -810,13 +834,29 @@ func c25(c *core.Check) {
 		loadAnchors[f] = true
 		g := f.Graph()
 		adds, irr := progLoadErrors.in(f)
-		progLoadErrors.undecideIrregular("C25-R4", f, irr)
+		var modelled []*core.Func
+		if _, u := progLoadErrors.deferred(f); u == "" {
+			modelled = deferLits(c, f)
+		}
+		progLoadErrors.undecideIrregular("C25-R4", f, irr, modelled...)
 		cars := g.CallsTo(compileAndRun)
 		ev := append(c25Points(adds), core.HitPoints(cars)...)
 		ctr := g.Count(nil, ev, nil)
+		dErr, und := progLoadErrors.deferred(f)
+		if und != "" {
+			c.Undecided("C25-R4", loadProgram+"|deferred accounting", pos(c, f.Decl), und)
+		}
 		for _, e := range normalExits(g) {
 			n := c25AtExit(ctr, e, ev)
 			key := loadProgram + "|exit=" + e.String()
+			if len(dErr) > 0 {
+				a1, u1 := c25DeferredAt(f, dErr, e)
+				if u1 != "" {
+					c.Undecided("C25-R4", key, ppos(c, e.P, f), "deferred accounting: "+u1)
+					continue
+				}
+				n = c25AddCnt(n, a1)
+			}
 			if e.Kind == "return" && !returnsNil(f.Info(), e.Ret) {
 				c.Verdict(n.Min == 1 && n.Max == 1, "C25-R4", key, ppos(c, e.P, f), "counted once", "a failing LoadProgram exit is counted "+n.String()+" times in prog_load_errors_total")
 			} else {
